@@ -1119,13 +1119,19 @@ func (dn *dirnode) loadManifest(txt string) error {
 				if pos+int64(blkOff+blkLen) > offset+length {
 					blkLen = int(offset + length - pos - int64(blkOff))
 				}
-				fnode.appendSegment(storedSegment{
-					kc:      dn.fs,
-					locator: seg.locator,
-					size:    seg.size,
-					offset:  blkOff,
-					length:  blkLen,
-				})
+				if blkLen > 0 {
+					// (a zero-length file token inside a
+					// block contributes no segment:
+					// filenode.seek relies on every
+					// segment being non-empty)
+					fnode.appendSegment(storedSegment{
+						kc:      dn.fs,
+						locator: seg.locator,
+						size:    seg.size,
+						offset:  blkOff,
+						length:  blkLen,
+					})
+				}
 				if next > offset+length {
 					break
 				} else {
